@@ -238,7 +238,7 @@ static struct world {
     vnacal_new_t *vn;		/* no public getters: observed via results */
     int h[MAXH];		/* live parameter handles (or -1) */
     int hvc;			/* index of the vnacal_t that owns h[] */
-    double complex pval[MAXH];	/* results of get_parameter_value steps */
+    double complex pval[16];	/* results of get_parameter_value steps */
     int npval;
     vnaproperty_t *root[2];
     int ci[2];			/* calibration indices returned */
@@ -2238,6 +2238,212 @@ bail:
     cleanup();
 }
 
+/* (35) multi-solve: the same unknown and correlated parameter handles are
+ * solved by three vnacal_new_t structures with 2, 3, 2 (re-solve after one
+ * more standard) and 3 frequencies on different grids, so that every solve
+ * after the first finds parameters that already hold solved values of another
+ * length; every parameter is probed after every solve (and, through the
+ * digest, after every failed one: old values or "no value", never a crash) */
+#define ADD_SET(vnp_, tag_) do { \
+    sim_measure_const(&sim, G_SHORT, 0.0, 0.0, 0.1, 0, &mb); \
+    STEP_RC("add_short1" tag_, vnacal_new_add_single_reflect_m(vnp_, mb.m, \
+		2, 2, VNACAL_SHORT, 1)); \
+    sim_measure_const(&sim, G_OPEN, 0.0, 0.0, 0.1, 0, &mb); \
+    STEP_RC("add_open1" tag_, vnacal_new_add_single_reflect_m(vnp_, mb.m, \
+		2, 2, VNACAL_OPEN, 1)); \
+    sim_measure_const(&sim, G_MATCH, 0.0, 0.0, 0.1, 0, &mb); \
+    STEP_RC("add_match1" tag_, vnacal_new_add_single_reflect_m(vnp_, mb.m, \
+		2, 2, VNACAL_MATCH, 1)); \
+    sim_measure_const(&sim, 0.2, 0.0, 0.0, G_SHORT, 0, &mb); \
+    STEP_RC("add_short2" tag_, vnacal_new_add_single_reflect_m(vnp_, mb.m, \
+		2, 2, VNACAL_SHORT, 2)); \
+    sim_measure_const(&sim, 0.2, 0.0, 0.0, G_MATCH, 0, &mb); \
+    STEP_RC("add_match2" tag_, vnacal_new_add_single_reflect_m(vnp_, mb.m, \
+		2, 2, VNACAL_MATCH, 2)); \
+    sim_measure_const(&sim, 0.2, 0.0, 0.0, t0, 0, &mb); \
+    STEP_RC("add_unknown2" tag_, vnacal_new_add_single_reflect_m(vnp_, mb.m, \
+		2, 2, W.h[0], 2)); \
+    sim_measure_const(&sim, 0.2, 0.0, 0.0, t1, 0, &mb); \
+    STEP_RC("add_correlated2" tag_, vnacal_new_add_single_reflect_m(vnp_, \
+		mb.m, 2, 2, W.h[1], 2)); \
+    sim_measure_const(&sim, 0.0, 1.0, 1.0, 0.0, 0, &mb); \
+    STEP_RC("add_through" tag_, vnacal_new_add_through_m(vnp_, mb.m, 2, 2, \
+		1, 2)); \
+} while (0)
+#define PROBE(tag_, n_) do { \
+    W.npval = (n_) + 1; \
+    STEP_CPLX("get_unknown" tag_, W.pval[n_], \
+	    vnacal_get_parameter_value(vcp, W.h[0], 1.5e9)); \
+    W.npval = (n_) + 2; \
+    STEP_CPLX("get_correlated" tag_, W.pval[(n_) + 1], \
+	    vnacal_get_parameter_value(vcp, W.h[1], 1.2e9)); \
+} while (0)
+static void script_resolve(void)
+{
+    static const double f2[2] = { 1.0e9, 2.0e9 };
+    static const double f3[3] = { 1.0e9, 1.5e9, 2.0e9 };
+    static const double f3s[3] = { 0.8e9, 1.4e9, 2.2e9 };
+    static const double sigma = 0.02;
+    const double complex t0 = 0.9 + 0.05 * I, t1 = 0.9 + 0.06 * I;
+    sim_t sim;
+    mbuf_t mb;
+    vnacal_t *vcp;
+    vnacal_new_t *va = NULL, *vb = NULL, *vc = NULL;
+
+    sim_init(&sim, ETS_T8, 2, 2, 28, 0.0);
+    STEP_PTR("create", W.vc[0], vnacal_create(vt_errfn, NULL));
+    vcp = W.vc[0];
+    W.hvc = 0;
+    STEP_IDX("make_unknown", W.h[0], vnacal_make_unknown_parameter(vcp,
+		VNACAL_OPEN));
+    STEP_IDX("make_correlated", W.h[1], vnacal_make_correlated_parameter(vcp,
+		W.h[0], NULL, 1, &sigma));
+    /* first calibration: 2 frequencies */
+    STEP_PTR("new_alloc_a", va, vnacal_new_alloc(vcp, VNACAL_T8, 2, 2, 2));
+    W.vn = va;
+    STEP_RC("set_frequency_vector_a", vnacal_new_set_frequency_vector(va, f2));
+    ADD_SET(va, "_a");
+    STEP_RC("solve_a", vnacal_new_solve(va));
+    PROBE("_a", 0);
+    STEP_IDX("add_calibration_a", W.ci[0], vnacal_add_calibration(vcp, "a",
+		va));
+    /* second calibration: the same parameters, 3 frequencies */
+    sim_set_nf(&sim, 3);
+    STEP_PTR("new_alloc_b", vb, vnacal_new_alloc(vcp, VNACAL_T8, 2, 2, 3));
+    STEP_RC("set_frequency_vector_b", vnacal_new_set_frequency_vector(vb, f3));
+    ADD_SET(vb, "_b");
+    STEP_RC("solve_b", vnacal_new_solve(vb));
+    PROBE("_b", 2);
+    STEP_IDX("add_calibration_b", W.ci[1], vnacal_add_calibration(vcp, "b",
+		vb));
+    /* back to the first one: one more standard, solve again (3 -> 2) */
+    sim_set_nf(&sim, 2);
+    sim_measure_const(&sim, 0.2, 0.0, 0.0, G_OPEN, 0, &mb);
+    STEP_RC("add_open2_a", vnacal_new_add_single_reflect_m(va, mb.m, 2, 2,
+		VNACAL_OPEN, 2));
+    STEP_RC("solve_a_again", vnacal_new_solve(va));
+    PROBE("_a_again", 4);
+    /* third calibration: 3 frequencies on another grid (2 -> 3) */
+    sim_set_nf(&sim, 3);
+    STEP_PTR("new_alloc_c", vc, vnacal_new_alloc(vcp, VNACAL_T8, 2, 2, 3));
+    STEP_RC("set_frequency_vector_c", vnacal_new_set_frequency_vector(vc,
+		f3s));
+    ADD_SET(vc, "_c");
+    STEP_RC("solve_c", vnacal_new_solve(vc));
+    PROBE("_c", 6);
+    /* and the second once more: same count, other grid */
+    STEP_RC("solve_b_again", vnacal_new_solve(vb));
+    PROBE("_b_again", 8);
+    STEP_VOID("new_free_b", vnacal_new_free(vb));
+    STEP_RC("delete_unknown", vnacal_delete_parameter(vcp, W.h[0]));
+    W.h[0] = -1;
+    /* the correlated parameter still holds the deleted unknown */
+    W.npval = 11;
+    STEP_CPLX("get_correlated_after_delete", W.pval[10],
+	    vnacal_get_parameter_value(vcp, W.h[1], 1.2e9));
+    STEP_VOID("free", (vnacal_free(vcp), W.vc[0] = NULL, W.vn = NULL));
+    for (int i = 0; i < MAXH; ++i)
+	W.h[i] = -1;
+bail:
+    cleanup();
+}
+
+/* (36) multi-solve through the analytic TRL path: reflect and line unknowns
+ * (line with a vector guess) solved on 2 frequencies, then a solve that must
+ * fail (EDOM: a third structure using the solved parameters with too few
+ * standards) and must keep the solved values, then TRL again on 3
+ * frequencies */
+#define ADD_TRL(vnp_, tag_, nf_) do { \
+    sim_measure_const(&sim, 0.0, 1.0, 1.0, 0.0, 0, &mb); \
+    STEP_RC("add_through" tag_, vnacal_new_add_through_m(vnp_, mb.m, 2, 2, \
+		1, 2)); \
+    sim_measure_const(&sim, rtruth, 0.0, 0.0, rtruth, 0, &mb); \
+    STEP_RC("add_reflect" tag_, vnacal_new_add_double_reflect_m(vnp_, mb.m, \
+		2, 2, W.h[0], W.h[0], 1, 2)); \
+    for (int k = 0; k < (nf_); ++k) { \
+	double th = 1.0 + 0.9 * k / ((nf_) - 1); \
+	sf[k][0] = 0.0; \
+	sf[k][1] = 0.97 * cexp(-I * th); \
+	sf[k][2] = sf[k][1]; \
+	sf[k][3] = 0.0; \
+    } \
+    sim_measure(&sim, sf, 0, &mb); \
+    STEP_RC("add_line" tag_, vnacal_new_add_line_m(vnp_, mb.m, 2, 2, line, \
+		1, 2)); \
+} while (0)
+#define PROBE_TRL(tag_, n_) do { \
+    W.npval = (n_) + 1; \
+    STEP_CPLX("get_reflect" tag_, W.pval[n_], \
+	    vnacal_get_parameter_value(vcp, W.h[0], 1.3e9)); \
+    W.npval = (n_) + 2; \
+    STEP_CPLX("get_line" tag_, W.pval[(n_) + 1], \
+	    vnacal_get_parameter_value(vcp, W.h[2], 1.7e9)); \
+} while (0)
+static void script_resolve2(void)
+{
+    static const double f2[2] = { 1.0e9, 2.0e9 };
+    static const double f3[3] = { 1.0e9, 1.6e9, 2.0e9 };
+    const double complex rtruth = -0.92 + 0.15 * I;
+    double complex lguess[2];
+    double complex sf[MAXF][MAXC];
+    sim_t sim;
+    mbuf_t mb;
+    vnacal_t *vcp;
+    vnacal_new_t *va = NULL, *vb = NULL, *vc = NULL;
+    int line[4];
+
+    sim_init(&sim, ETS_T8, 2, 2, 29, 0.0);
+    for (int k = 0; k < 2; ++k)
+	lguess[k] = cexp(-I * (1.0 + 0.9 * k + 0.15));
+    STEP_PTR("create", W.vc[0], vnacal_create(vt_errfn, NULL));
+    vcp = W.vc[0];
+    W.hvc = 0;
+    STEP_IDX("make_unknown_reflect", W.h[0], vnacal_make_unknown_parameter(vcp,
+		VNACAL_SHORT));
+    STEP_IDX("make_vector_guess", W.h[1], vnacal_make_vector_parameter(vcp,
+		f2, 2, lguess));
+    STEP_IDX("make_unknown_line", W.h[2], vnacal_make_unknown_parameter(vcp,
+		W.h[1]));
+    line[0] = VNACAL_MATCH;
+    line[1] = W.h[2];
+    line[2] = W.h[2];
+    line[3] = VNACAL_MATCH;
+    STEP_PTR("new_alloc_a", va, vnacal_new_alloc(vcp, VNACAL_T8, 2, 2, 2));
+    W.vn = va;
+    STEP_RC("set_frequency_vector_a", vnacal_new_set_frequency_vector(va, f2));
+    ADD_TRL(va, "_a", 2);
+    STEP_RC("solve_a", vnacal_new_solve(va));
+    PROBE_TRL("_a", 0);
+    /* a structure that cannot be solved: the solved values must survive */
+    sim_set_nf(&sim, 3);
+    STEP_PTR("new_alloc_c", vc, vnacal_new_alloc(vcp, VNACAL_T8, 2, 2, 3));
+    STEP_RC("set_frequency_vector_c", vnacal_new_set_frequency_vector(vc, f3));
+    sim_measure_const(&sim, rtruth, 0.0, 0.0, rtruth, 0, &mb);
+    STEP_RC("add_reflect_c", vnacal_new_add_double_reflect_m(vc, mb.m, 2, 2,
+		W.h[0], W.h[0], 1, 2));
+    g_allow_fail = 1;
+    STEP_RC("solve_c_underdetermined", vnacal_new_solve(vc));
+    PROBE_TRL("_after_failed_solve", 2);
+    /* TRL again on 3 frequencies */
+    STEP_PTR("new_alloc_b", vb, vnacal_new_alloc(vcp, VNACAL_T8, 2, 2, 3));
+    STEP_RC("set_frequency_vector_b", vnacal_new_set_frequency_vector(vb, f3));
+    ADD_TRL(vb, "_b", 3);
+    STEP_RC("solve_b", vnacal_new_solve(vb));
+    PROBE_TRL("_b", 4);
+    STEP_IDX("add_calibration_b", W.ci[0], vnacal_add_calibration(vcp, "b",
+		vb));
+    /* and back on 2 */
+    sim_set_nf(&sim, 2);
+    STEP_RC("solve_a_again", vnacal_new_solve(va));
+    PROBE_TRL("_a_again", 6);
+    STEP_VOID("free", (vnacal_free(vcp), W.vc[0] = NULL, W.vn = NULL));
+    for (int i = 0; i < MAXH; ++i)
+	W.h[i] = -1;
+    (void)vc;
+bail:
+    cleanup();
+}
+
 /* ------------------------------------------------------------------- main */
 
 static const struct {
@@ -2267,6 +2473,8 @@ static const struct {
     { "lmw", script_lmw },
     { "auto16", script_auto16 },
     { "ts", script_ts },
+    { "resolve", script_resolve },
+    { "resolve2", script_resolve2 },
     { "solt-t8-m", script_solt, 0 },
     { "solt-t8-ab", script_solt, 1 },
     { "solt-u8-m", script_solt, 2 },
